@@ -210,6 +210,45 @@ int main(int argc, char** argv) {
     c.add(st.fixpoint ? "configs_to_fixpoint" : "configs_cut_at_bound");
     sample(fmt("{\"config\":[%u,%u,%u,\"%s\"],\"states\":%llu,\"transitions\":%llu,\"depth\":%llu,\"alphabet\":%zu}", cfg.sync, cfg.init, cfg.timeout, WN[wiring], (unsigned long long)st.states, (unsigned long long)st.transitions, (unsigned long long)st.max_depth + 1, alpha.size()), 3);
   }
+  // ---- back-off chain: the reference clock never gives a valid answer. For EVERY sync period 1..65535 (initial periods 1 and 5; a
+  // residue class plus the neighbours of every power of two for 2, 3, 7, 1000 and sync-1) the complete failure chain - until the retry
+  // period has saturated and three more failures - is driven on the real class; the World oracle judges every loop() call (spacing of
+  // requests, doubling, cap at the sync period, clock untouched). Periods above 2^15 s make 16-bit doubling arithmetic wrap.
+  {
+    uint64_t chains = 0, events = 0, failures = 0; int reported = 0;
+    for (uint32_t sync = 1; sync <= 65535; sync++) {
+      if ((int)(sync % a.nshards) != a.shard) continue;
+      bool near_pow2 = false; for (uint32_t p = 2; p <= 65536; p *= 2) if (sync + 2 >= p && sync <= p + 2) near_pow2 = true;
+      std::vector<uint32_t> inits = {1, 5};
+      if (near_pow2 || sync % 16 == (uint32_t)(a.seed % 16) || a.thorough) for (uint32_t i : {2u, 3u, 7u, 1000u, sync - 1}) if (i >= 1 && i <= sync) inits.push_back(i);
+      for (uint32_t init : inits) {
+        if (init > sync) continue;
+        Cfg cfg{(uint16_t)sync, (uint16_t)init, 1000, 0, 0};
+        World::maxDelta = sync * 1000UL + 2000;
+        World w(cfg); chains++;
+        std::string trace;
+        auto step = [&](uint32_t d, int ans) { events++; std::string r = w.apply({d, ans}); if (trace.size() < 1500) trace += fmt("+%ums %s; ", d, AN[ans]); return r; };
+        std::string bad;
+        for (int guard = 0; guard < 400 && bad.empty(); guard++) {
+          uint8_t st = LF::status(*w.clk);
+          std::string r;
+          if (st == SystemClockLoop::kStatusWaitForRetry) {
+            // one millisecond before the modelled deadline (must still wait: judged by the spacing rule at the next send), then past it
+            uint32_t gapms = w.requiredGap * 1000u;
+            r = step(gapms > 2 ? gapms - 2 : 1, A_INVALID);
+            if (r == "ok") r = step(3, A_INVALID);
+          } else r = step(1, A_INVALID);
+          if (r != "ok") bad = r;
+          if (w.failures >= 3 && w.modelPeriod == sync && w.requiredGap == sync && w.failures >= 22) break;
+        }
+        failures += w.failures;
+        if (bad.empty() && w.failures < 22) bad = "bad:failure-chain-stalled";
+        if (!bad.empty() && reported++ < 4)
+          violation("c14:backoff-chain:" + bad.substr(4), fmt("{\"config\":{\"syncPeriod\":%u,\"initialPeriod\":%u,\"timeoutMs\":1000,\"wiring\":\"ref!=backup\"},\"failures_so_far\":%d,\"events(loop calls)\":%s}", sync, init, w.failures, jstr(trace).c_str()));
+      }
+    }
+    c.add("backoff_chains", chains); c.add("backoff_chain_events", events); c.add("backoff_chain_failures", failures);
+  }
   done(c);
   return 0;
 }
